@@ -11,10 +11,10 @@ import (
 	"encoding/pem"
 	"errors"
 	"fmt"
-	"io"
 	"go/ast"
 	"go/parser"
 	"go/token"
+	"io"
 	"os"
 	"path/filepath"
 	"sort"
@@ -404,7 +404,7 @@ var hostile32 = []uint32{0, 1, 2, 7, 8, 15, 16, 17, 23, 24, 27, 28, 29, 47, 48, 
 // mutate derives a malformed input from a valid encoding.
 func mutate(t *rapid.T, valid []byte) ([]byte, string) {
 	b := append([]byte{}, valid...)
-	switch k := rapid.IntRange(0, 11).Draw(t, "mkind"); {
+	switch k := rapid.IntRange(0, 13).Draw(t, "mkind"); {
 	case k == 0:
 		return b, "valid"
 	case k <= 3:
@@ -438,6 +438,37 @@ func mutate(t *rapid.T, valid []byte) ([]byte, string) {
 		return append(b, gen.FillBytes(t, rapid.IntRange(1, 40).Draw(t, "tail"))...), "trailing_garbage"
 	case k == 10:
 		return nil, "empty"
+	case k == 12:
+		// longer than any valid encoding while staying inside the format's own alphabet: the input twice,
+		// or a part of it repeated in place
+		if len(b) == 0 || rapid.Bool().Draw(t, "twice") {
+			return append(b, b...), "doubled"
+		}
+		i := rapid.IntRange(0, len(b)-1).Draw(t, "from")
+		j := rapid.IntRange(i+1, len(b)).Draw(t, "to")
+		at := rapid.IntRange(0, len(b)).Draw(t, "at")
+		out := append(append(append([]byte{}, b[:at]...), b[i:j]...), b[at:]...)
+		return out, "self_splice"
+	case k == 13:
+		// one byte more or less at either end
+		switch rapid.IntRange(0, 3).Draw(t, "edge") {
+		case 0:
+			if len(b) > 0 {
+				return append(b, b[len(b)-1]), "one_more_at_the_end"
+			}
+		case 1:
+			if len(b) > 0 {
+				return append([]byte{b[0]}, b...), "one_more_at_the_start"
+			}
+		case 2:
+			if len(b) > 0 {
+				return b[1:], "one_less_at_the_start"
+			}
+		}
+		if len(b) > 0 {
+			return b[:len(b)-1], "one_less_at_the_end"
+		}
+		return b, "empty"
 	default:
 		n := rapid.SampledFrom([]int{1, 2, 3, 4, 5, 15, 16, 17, 24, 28, 40, 300, 4096, 65536}).Draw(t, "rlen")
 		return gen.FillBytes(t, n), "random_bytes"
